@@ -133,6 +133,8 @@ pub fn main() {
                 writeln!(out, "panic").ok()
             }
         };
+        // one observation per operation reaches the orchestrator at once: it tells a hang from a long script by the absence of output
+        out.flush().ok();
     }
     out.flush().ok();
 }
